@@ -133,7 +133,7 @@ def gen_alias_model(rng, idx):
     classes, kinds = {}, {}
     nS = rng.choice([1, 1, 2])
     nA = rng.choice([0, 1, 1, 2])
-    starts = {}
+    starts, der0 = {}, {}
     for i in range(nS):
         n = "x%d" % i
         start = rng.randint(-8, 8) / 4
@@ -152,10 +152,13 @@ def gen_alias_model(rng, idx):
         **({"nominal": rng.choice(NOMINALS)} if rng.random() < 0.7 else {}))})
     classes["u0"] = [("u0", 1)]
     kinds["u0"] = "control"
+    starts["u0"] = 0.5
     for i in range(nS):
         k = rng.choice([0.25, 0.5, 1.0])
         g = rng.choice([1.0, 0.5, 2.0])
         equations.append("der(x%d) = -%s*x%d + %s*u0" % (i, lit(k), i, lit(g)) + (" + 0.25*x0" if i == 1 else ""))
+        # derivative at t0 implied by the fixed starts and u0(t0) = 0.5 (used for a consistent history)
+        der0["x%d" % i] = -k * starts["x%d" % i] + g * 0.5 + (0.25 * starts["x0"] if i == 1 else 0.0)
     for j in range(nA):
         n = "w%d" % j
         attrs = {}
@@ -167,7 +170,9 @@ def gen_alias_model(rng, idx):
             attrs["min"] = float(rng.randint(-900, -300))
             attrs["max"] = float(rng.randint(300, 900))
         variables.append({"name": n, "attrs": attrs})
-        equations.append("%s = %s*x%d + %s" % (n, lit(rng.choice([2.0, -1.5, 0.5])), rng.randrange(nS), lit(float(rng.randint(-3, 3)))))
+        cw, kx, dw = rng.choice([2.0, -1.5, 0.5]), rng.randrange(nS), float(rng.randint(-3, 3))
+        equations.append("%s = %s*x%d + %s" % (n, lit(cw), kx, lit(dw)))
+        starts[n] = cw * starts["x%d" % kx] + dw  # value at t0 implied by the fixed starts
         classes[n] = [(n, 1)]
         kinds[n] = "alg"
     # alias chains
@@ -203,7 +208,7 @@ def gen_alias_model(rng, idx):
             classes[base].append((a, sign * st))
     rng.shuffle(equations)
     return {"name": "A%d" % idx, "variables": variables, "equations": equations, "classes": classes,
-            "kinds": kinds, "starts": starts}
+            "kinds": kinds, "starts": starts, "der0": der0}
 
 
 # ---------------------------------------------------------------------------------------------
@@ -243,8 +248,29 @@ def check_optimisation(c, spec, folder, lines, pending):
     def objective(self, ensemble_member):
         return (self.state_at(target, self.times()[-1], ensemble_member=ensemble_member) - 1.0) ** 2
 
-    P = opt_class(times, {"objective": objective})
-    case = {"stream": "mo-opt", "model": spec["text"], "times": times, "objective_on": target}
+    # a history with several points before t0, stored through a random name of each quantity
+    hist = {}
+    for base, members in spec["classes"].items():
+        if rng.random() < 0.85:
+            ht = rng.choice([[-2.0, -1.0, 0.0], [-3.5, -2.0, -0.5, 0.0], [-1.0, 0.0]])
+            vb = [rng.randint(-12, 12) / 4 for _ in ht]
+            if base in spec["starts"]:
+                vb[-1] = spec["starts"][base]  # consistent with the fixed start value
+            if base in spec["der0"]:
+                vb[-2] = vb[-1] - spec["der0"][base] * (ht[-1] - ht[-2])  # ... and with the dynamics at t0
+            n, sg = rng.choice(members)
+            hist[base] = {"through": n, "sign": sg, "times": ht, "base_values": vb}
+
+    def history(self, ensemble_member):
+        from rtctools.optimization.timeseries import Timeseries
+
+        h = super(P, self).history(ensemble_member)
+        for base, e in hist.items():
+            h[e["through"]] = Timeseries(np.array(e["times"]), np.array([e["sign"] * v for v in e["base_values"]]))
+        return h
+
+    P = opt_class(times, {"objective": objective, "history": history})
+    case = {"stream": "mo-opt", "model": spec["text"], "times": times, "objective_on": target, "history": hist}
     with quiet_fd():
         p = P(model_folder=folder, model_name=spec["name"], input_folder=folder, output_folder=folder)
         r_opt = _call(p.optimize)
@@ -272,7 +298,8 @@ def check_optimisation(c, spec, folder, lines, pending):
     import casadi as ca
 
     X = p.solver_input
-    xval = p.solver_output
+    xval = np.asarray(p.solver_output, dtype=float).ravel()
+    probes = [xval] + [np.array([rng.randint(-40, 40) / 8 for _ in range(xval.size)]) for _ in range(2)]
     for base, members in spec["classes"].items():
         for what, d in obs.items():
             rb = _call(lambda: d[base])
@@ -323,17 +350,47 @@ def check_optimisation(c, spec, folder, lines, pending):
                            {"base": float(gb[1].function_nominal), "alias": float(gn[1].function_nominal)})
                 if kn != (kb if s > 0 else toggled):
                     c.fail("StateGoal function_key of alias %r inconsistent with %r" % (n, base), case, {"base": kb, "alias": kn})
-        # accessors: state_at through every name
-        tq = [times[0], times[-1], (times[0] + times[1]) / 2]
-        for t in tq:
-            vb = _call(lambda: float(ca.Function("f", [X], [p.state_at(base, t)])(xval)))
+        # accessors through every name, as CasADi functions of X at several probe vectors:
+        # before the history, on / between history knots, at t0, inside the horizon, at the end
+        h = hist.get(base)
+        tq = [times[0], times[-1], (times[0] + times[1]) / 2, times[1], -1.0, -0.75, -5.0]
+        if h:
+            tq += [h["times"][0], (h["times"][0] + h["times"][1]) / 2]
+        windows = [(None, None), (times[0], times[1]), ((times[0] + times[1]) / 2, times[-1])]
+        if h:
+            windows += [(h["times"][0], times[1]), (-0.25, (times[1] + times[2]) / 2), (h["times"][0], times[0])]
+        queries = [("state_at", (t,)) for t in tq] + [("der_at", (t,)) for t in tq if t > -5.0]
+        queries += [("states_in", w) for w in windows] + [("integral", w) for w in windows]
+
+        def ev(name, args, var):
+            e = getattr(p, name)(var, *args)
+            if not isinstance(e, ca.MX):
+                e = ca.MX(ca.DM(np.atleast_1d(np.asarray(e, dtype=float))))
+            f = ca.Function("f", [X], [e])
+            return [np.array(f(v)).ravel() for v in probes]
+
+        first = {}
+        for name, args in queries:
+            vb = _call(lambda: ev(name, args, base))
+            first[(name, args)] = vb
             for n, s in members:
-                vn = _call(lambda: float(ca.Function("f", [X], [p.state_at(n, t)])(xval)))
-                c.count(("mo-opt", "state_at", spec["kinds"][base], s))
-                c.hit("mo-opt/state_at")
-                if vb[0] != vn[0] or (vb[0] == "ok" and not abs(vn[1] - s * vb[1]) <= 1e-12 * max(1.0, abs(vb[1]))):
-                    c.fail("state_at(%r, %s) is not the signed state_at(%r)" % (n, t, base), case,
+                vn = _call(lambda: ev(name, args, n))
+                c.count(("mo-opt", name, spec["kinds"][base], s, vb[0], h is not None,
+                         None if args[0] is None else (args[0] < times[0], args[0] == times[0])))
+                c.hit("mo-opt/" + name)
+                ok = vb[0] == vn[0] and (vb[0] != "ok" or all(
+                    a.shape == b.shape and np.allclose(a, s * b, rtol=1e-12, atol=1e-12, equal_nan=True)
+                    for a, b in zip(vn[1], vb[1])))
+                if not ok:
+                    c.fail("%s(%r, %s) is not the signed %s(%r, ...)" % (name, n, args, name, base), case,
                            {"sign": s, "base": vb, "alias": vn})
+        # reading through aliases must not have altered what the canonical name sees
+        for (name, args), vb in first.items():
+            if name in ("states_in", "integral") and vb[0] == "ok":
+                again = _call(lambda: ev(name, args, base))
+                if again[0] != "ok" or not all(np.array_equal(a, b, equal_nan=True) for a, b in zip(again[1], vb[1])):
+                    c.fail("%s(%r, %s) changed after reading through aliases" % (name, base, args), case,
+                           {"first": vb, "again": again})
     # declared nominal of the base must be what every name sees (positive magnitude)
     # (when an alias declares a nominal of its own, pymoca's merge decides -- outside the property)
     byname = {v["name"]: v for v in spec["variables"]}
